@@ -18,12 +18,33 @@ reported as lost — never guessed):
                indexing, attribute access / method calls / constructors / global tables
                declared in the spec (bound to model functions or generated tables), calls of
                other translated functions.
+Additions for the duration operations (group SrcDurOps; all opt-in through spec bindings or entry keys, so the images of the
+other groups do not change): `isinstance` on int / float / str, typed global functions (`spec.calls`, e.g. `frac`), typed
+operators bound in the spec or to translated `__add__` / `__radd__` instances (`spec.binops`, entry keys `binop` / `rbinop`),
+`obj(...)` through `spec.callables`, values that are one of several classes at run time (`UNIONS`: a `match` per class at the
+assignment or at the operator), local recursive functions (entry key `nested`: structural recursion on an explicit depth
+bound `rec_fuel`, exhaustion = RecursionError), `xs[i] = v` on a fresh list, `x[::-1]`, comprehension filters that can raise
+(`filterM`), dict comprehensions over `d.items()` that keep the keys, `sum(xs, None)`, attributes of a possibly-None value
+(AttributeError), per-function `copy()` templates (entry key `copy`), folding of `len([x])` / literal comparisons (`fold`).
+List surgery (group SrcExt; the generated file must import MV.Model.PyList, namespace `PyL`): `l[:]` (copy), `l[::-1]`,
+`l[i] = v`, `l.insert(i, v)`, `l.pop(i)` (as a statement), `x in l` / `l.index(x)` on lists of strings or of a type whose
+`__eq__` the spec binds (`spec.eq`), an empty dict literal with `d[k] = v`, `d[k]`, `d.keys()` (association list in insertion
+order, keys compared with the bound `__eq__`), `sorted(l, key=lambda x: e)` with int / Optional[int] keys, f-strings and `+`
+on strings.  A parameter the function mutates must be declared `owned` in the spec entry (see `translate_function`).
+Where the forks of the groups met (merge of SrcOrn, SrcDurOps, SrcExt):
+  * `/`: a `spec.binops` binding first (SrcDurOps: `Py.ratDiv`), else the built-in reading (SrcOrn: `Py.fracDiv`, `x / 2` pure);
+  * `x[::-1]`: a `(type, '[::-1]')` method binding first (SrcDurOps, a `Melody`: a fresh local `rv_n`), else `.reverse` on a `List …`;
+  * item store: `xs[i] = v` / `d[k] = v` on a local name -> `PyL.setItem` / `PyL.dictSet` (SrcExt, file imports MV.Model.PyList);
+    `m.notes[i] = v` through an attribute that is the list itself -> `Py.setItem` (SrcDurOps, defined in its PRELUDE);
+  * entry key `owned` (parameters the function stores into): see `FunTr.check_owned` (both call disciplines are admitted);
+  * tree nodes: `matchsum` = SrcOrn's `if isinstance(x, C)` on a `spec.sums` type, `matchunion` = SrcDurOps's `UNIONS` value;
+  * plug-in groups translate against their own copy of the spec (translate_src.make), so bindings do not leak between groups.
 Typing is by a simple flow-sensitive inference from the parameter types given in the spec; an
 `if` duplicates the rest of the block into both branches, so every path is typed on its own.
 Python evaluation order is kept: every sub-expression that can raise is bound (`let t ← …`)
 in source order before the expression using it.
 """
-import ast, inspect, textwrap, importlib
+import ast, inspect, textwrap, importlib, re
 
 
 class Untranslatable(Exception):
@@ -55,15 +76,48 @@ ERRS = {'Exception': 'other', 'ValueError': 'value', 'KeyError': 'key', 'IndexEr
         'NotImplementedError': 'other'}
 
 LIST_TYPES = ('List Int', 'Np')
+INT_LIT = re.compile(r'^\((-?\d+) : Int\)$')
+
+
+def display_len(t):
+    """number of elements of a Lean list display `[a, b, …]` written by this translator, else None"""
+    if not (t.startswith('[') and t.endswith(']')):
+        return None
+    inner = t[1:-1].strip()
+    if not inner:
+        return 0
+    depth, n = 0, 1
+    for ch in inner:
+        if ch in '([{⟨':
+            depth += 1
+        elif ch in ')]}⟩':
+            depth -= 1
+            if depth < 0:
+                return None
+        elif ch == ',' and depth == 0:
+            n += 1
+    return n if depth == 0 else None
+
+
+# builtin classes in `isinstance(x, C)` -> declared types whose values are instances of C (a bool is an int)
+PYCLASSES = {'int': ('Int', 'Bool'), 'float': ('Float',), 'bool': ('Bool',), 'str': ('Str',)}
 
 
 def ident(n):
     return f'«{n}»' if n in KEYWORDS else n
 
 
+UNIONS = {}      # 'A|B' -> (Lean inductive, [(member type, constructor)]): values whose Python class is decided at run time
+
+
 def lean_ty(t):
+    if t in UNIONS:
+        return UNIONS[t][0]
+    if t.startswith('Dict '):          # a dict is its association list in insertion order
+        return 'List ' + t[5:]
     return {'Np': 'List Int', 'NpBool': 'List Bool', 'None': 'Unit', 'Str': 'String', 'Set Int': 'List Int',
-            'Parts': 'List (String × Melody)', 'List Str': 'List String', 'Metric': 'Rhythm.Metric'}.get(t, t)
+            'Parts': 'List (String × Melody)', 'List Str': 'List String', 'Metric': 'Rhythm.Metric',
+            'Float': 'Rat'}.get(t, t)
 
 
 def ilit(k):
@@ -112,13 +166,20 @@ class Spec:
         self.tuple_fields = {}            # (record type, constant index) -> (template, type): rows stored as Python lists
         self.index_methods = {}           # container type -> (template over {0}=container,{1}=key, key type, result type)
         self.copy_template = {}           # value type -> what `x.copy()` is on the model's values (default: the identity)
-        # --- bindings added for the SrcOrn group (all empty by default: nothing changes for specs that do not set them)
-        self.binops = {}                  # (left type, ast op name, right type) -> (template over {0},{1}, result type)
+        # --- bindings added for the plug-in groups (all empty by default: nothing changes for specs that do not set them)
+        self.binops = {}                  # (left type, ast operator name, right type) -> (template over {0},{1}, result type); `Res T` = may
+                                          #   raise.  Set by hand (SrcOrn: `+` on note-or-melody values; SrcDurOps: `/` on Fractions, list * int,
+                                          #   `In`) or by the entry keys `binop` / `rbinop` (typed instances of translated `__add__` / `__radd__`).
+                                          #   A binding wins over the built-in reading of `/` (see `FunTr.binop`).
         self.truthy = {}                  # type -> template of `bool(x)` (a value of that type used as a condition)
         self.coercions = {}               # (from type, to type) -> template: representation changes of the model (Note into note-or-melody)
         self.sums = {}                    # sum type -> {python class name: (match pattern over {0}, payload type)}  (isinstance tests)
         self.store_templates = {}         # (type, attr) -> (template over {0}=object,{1}=value, value type, result type): `x.attr = v` on a non-record
         self.fraction_ctors = set()       # names bound to `fractions.Fraction` in the translated module
+        self.calls = {}                   # (global function name, argument types) -> (template over {0}.., result type)
+        self.callables = {}               # (type of the called object, (positional types…, '**T' for a `**dict` argument)) ->
+                                          #   (template over {0}=object,{1}.., result type, keyword names that are dropped)
+        self.eq = {}                      # type -> template over {0}=list item / stored key, {1}=value: Python's `{0} == {1}` (`__eq__`)
 
 
 class FunTr:
@@ -132,7 +193,15 @@ class FunTr:
         self.in_loop = 0
         self.consts = {}           # parameters the spec fixes to a literal (defaults that the tie does not vary)
         self.join_ifs = False      # entry option: an `if` without return / raise joins its branches instead of duplicating the rest
-        self.cur_target = None     # name assigned by the statement being translated (`x = f(x, …)` with an owned parameter)
+        self.cur_target = None     # name assigned by the statement being translated (`x = f(x, …)` with an owned parameter) …
+        self.cur_value = None      # … and its right-hand side
+        self.copy_template = {}    # value type -> `x.copy()` on the model's values, for this function only (entry key `copy`)
+        self.typed_ops = False     # entry key `typed_ops`: operator instances translated from the classes win over list concatenation
+        self.fold_literals = False  # entry key `fold`: `len([x])` and comparisons of two int literals are evaluated
+        self.nested = {}           # entry key `nested`: local function name -> dict(lean=, params=, ret=) (recursion by fuel)
+        self.nested_defs = []      # rendered local functions
+        self.has_fuel = False      # the Lean definition takes `rec_fuel : Nat` (bound on the depth of local recursions)
+        self.ret_expr = None       # the expression of the `return` statement being translated
 
     def fresh(self, base='t'):
         self.n += 1
@@ -204,6 +273,39 @@ class FunTr:
             return self.spec.truthy[ty].format(t), 'Bool'
         return t, ty
 
+    def e_Dict(self, e, env, B):
+        """only the empty literal: an association list whose entry type is fixed by the first store"""
+        if e.keys:
+            raise Untranslatable('non-empty dict literal')
+        m = f'⟦T{len(self.tyvars) + 1}⟧'
+        self.tyvars[m] = None
+        return '[]', f'Dict {m}'
+
+    def e_JoinedStr(self, e, env, B):
+        """f-string whose pieces are literal text and `{s}` for a string `s` (no conversion, no format spec)"""
+        import json
+        parts = []
+        for v in e.values:
+            if isinstance(v, ast.Constant) and isinstance(v.value, str):
+                parts.append(json.dumps(v.value, ensure_ascii=True))
+            elif isinstance(v, ast.FormattedValue) and v.conversion == -1 and v.format_spec is None:
+                t, ty = self.expr(v.value, env, B)
+                if lean_ty(ty) != 'String':
+                    raise Untranslatable(f'f-string piece of type {ty}')
+                parts.append(t)
+            else:
+                raise Untranslatable('f-string form')
+        return ('(' + ' ++ '.join(parts) + ')' if len(parts) > 1 else (parts[0] if parts else '""')), 'Str'
+
+    def eq_fun(self, ty):
+        """Python's `==` on `ty` as a Lean function `item -> value -> Bool` (strings: built in; other types: `spec.eq`)"""
+        if lean_ty(ty) == 'String':
+            return '(fun (a b : String) => a == b)'
+        tmpl = getattr(self.spec, 'eq', {}).get(ty)
+        if tmpl is None:
+            raise Untranslatable(f'`==` on {ty} is not bound in the spec')
+        return f'(fun (a b : {lean_ty(ty)}) => {tmpl.format("a", "b")})'
+
     def e_UnaryOp(self, e, env, B):
         t, ty = self.expr(e.operand, env, B)
         if isinstance(e.op, ast.Not):
@@ -243,6 +345,10 @@ class FunTr:
         Ba, Bb = [], []
         a, aty = self.expr(e.body, env, Ba)
         b, bty = self.expr(e.orelse, env, Bb)
+        if cty == 'Bool' and c in ('true', 'false') and B is not None and (Ba or Bb):
+            # decided by the declared types: only the branch that runs is evaluated
+            B.extend(Ba if c == 'true' else Bb)
+            return (a, aty) if c == 'true' else (b, bty)
         if Ba or Bb or cty != 'Bool':
             raise Untranslatable('conditional expression')
         if c == 'true':          # decided by the declared types (e.g. `x if x is not None else d` on a non-optional x)
@@ -271,6 +377,30 @@ class FunTr:
         a, aty = self.expr(e.left, env, B)
         b, bty = self.expr(e.right, env, B)
         op = type(e.op).__name__
+        return self.binop_u(a, aty, b, bty, op, e, B)
+
+    def binop_u(self, a, aty, b, bty, op, e, B):
+        bty = next((k_ for k_, v_ in UNIONS.items() if v_[0] == bty), bty)      # element types of lists carry the Lean name
+        if bty in UNIONS and aty not in UNIONS:
+            # the method that runs depends on the class of the right operand: one alternative per class
+            x = self.fresh('u')
+            alts, rtys = [], []
+            for mt, ctor in UNIONS[bty][1]:
+                Bi = []
+                r, rty = self.binop(a, aty, x, mt, op, e, Bi)
+                if Bi:
+                    raise Untranslatable(f'{aty} {op} {bty}: an alternative that can raise, at line {e.lineno}')
+                alts.append(f'| {UNIONS[bty][0]}.{ctor} {x} => {r}')
+                rtys.append(rty)
+            if any(lean_ty(r) != lean_ty(rtys[0]) for r in rtys):
+                raise Untranslatable(f'{aty} {op} {bty}: result types {rtys} at line {e.lineno}')
+            return f'(match {b} with ' + ' '.join(alts) + ')', rtys[0]
+        return self.binop(a, aty, b, bty, op, e, B)
+
+    def binop(self, a, aty, b, bty, op, e, B):
+        if self.typed_ops and (aty, op, bty) in self.spec.binops:      # a translated `__add__` / `__radd__` instance
+            tmpl, rty = self.spec.binops[(aty, op, bty)]
+            return self.bind(B, tmpl.format(a, b), rty)
         if aty == 'Bool' and bty == 'Int':
             a, aty = f'(Py.b2i {a})', 'Int'
         if bty == 'Bool' and aty == 'Int':
@@ -292,8 +422,16 @@ class FunTr:
         if is_list(aty) and is_list(bty) and aty != 'Np' and op == 'Add':
             aty, bty = self.unify_list(aty, bty)
             return f'({a} ++ {b})', aty
+        if lean_ty(aty) == 'String' and lean_ty(bty) == 'String' and op == 'Add':
+            return f'({a} ++ {b})', 'Str'
         if (aty, op) in self.spec.operators and bty == aty:
             return self.call_fun(self.spec.operators[(aty, op)], [(a, aty), (b, bty)], B)
+        if (aty, op, bty) in self.spec.binops:
+            # an operator the spec binds (SrcOrn: `+` on note-or-melody values; SrcDurOps: `/` on Fractions, list * int, typed
+            # `__add__` instances).  It comes before the built-in reading of `/` below, so that a group that binds `/` itself
+            # (SrcDurOps: `Py.ratDiv`) keeps its binding and a group that does not (SrcOrn) gets the built-in one.
+            tmpl, rty = self.spec.binops[(aty, op, bty)]
+            return self.bind(B, tmpl.format(a, b), rty)
         if op == 'Div' and 'Rat' in (aty, bty) and {aty, bty} <= {'Rat', 'Int'}:
             # Fraction / Fraction-or-int: exact, ZeroDivisionError on 0
             a = a if aty == 'Rat' else f'(({a} : Int) : Rat)'
@@ -304,9 +442,6 @@ class FunTr:
         if op == 'Div' and aty == 'Int' and bty == 'Int' and self.posint(e.right):
             # int / int is a float; admitted only under `int(…)` (see e_Call), as the pair (dividend, divisor)
             return f'({a}, {b})', 'IntQuot'
-        if (aty, op, bty) in self.spec.binops:
-            tmpl, rty = self.spec.binops[(aty, op, bty)]
-            return self.bind(B, tmpl.format(a, b), rty)
         raise Untranslatable(f'{aty} {op} {bty} at line {e.lineno}')
 
     CMP = {'Eq': '=', 'NotEq': '≠', 'Lt': '<', 'LtE': '≤', 'Gt': '>', 'GtE': '≥'}
@@ -345,16 +480,30 @@ class FunTr:
             return ('false' if op == 'Eq' else 'true'), 'Bool'
         b, bty = self.expr(right, env, B)
         if op in ('In', 'NotIn'):
+            if (aty, 'In', bty) in self.spec.binops:
+                tmpl, rty = self.spec.binops[(aty, 'In', bty)]
+                r, rty = self.bind(B, tmpl.format(a, b), rty)
+                return (r if op == 'In' else f'(!{r})'), 'Bool'
             if aty == 'Int' and bty in LIST_TYPES + ('Set Int',):
                 r = f'(Py.isIn {a} {b})'
                 return (r if op == 'In' else f'(!{r})'), 'Bool'
-            if aty == 'Str' and bty == 'List Str':
+            if aty == 'Str' and bty == 'List Str':       # exactly these type names (SrcOrn: a tag in `note.tags`)
                 r = f'({b}.contains {a})'
+                return (r if op == 'In' else f'(!{r})'), 'Bool'
+            if bty.startswith('List ') and lean_ty(elem_ty(bty)) == lean_ty(aty) and \
+                    (lean_ty(aty) == 'String' or aty in getattr(self.spec, 'eq', {})):
+                # other lists of strings (SrcExt: `List String`) and lists of a type whose `__eq__` the spec binds
+                r = f'(PyL.containsBy {self.eq_fun(aty)} {b} {a})'
                 return (r if op == 'In' else f'(!{r})'), 'Bool'
             raise Untranslatable(f'{aty} in {bty}')
         if op not in self.CMP:
             raise Untranslatable(f'comparison {op}')
         if aty == 'Int' and bty == 'Int':
+            la, lb = INT_LIT.match(a), INT_LIT.match(b)
+            if la and lb and self.fold_literals:      # both sides are literals (e.g. the length of a list display)
+                import operator
+                f = dict(Eq=operator.eq, NotEq=operator.ne, Lt=operator.lt, LtE=operator.le, Gt=operator.gt, GtE=operator.ge)[op]
+                return ('true' if f(int(la.group(1)), int(lb.group(1))) else 'false'), 'Bool'
             return f'(decide ({a} {self.CMP[op]} {b}))', 'Bool'
         if 'Rat' in (aty, bty) and {aty, bty} <= {'Rat', 'Int'}:
             a = a if aty == 'Rat' else f'(({a} : Int) : Rat)'
@@ -375,8 +524,23 @@ class FunTr:
                 raise Untranslatable(f'key of {e.value.id}: {ty}, expected {kty}')
             return self.bind(B, tmpl.format(k), rty)
         v, vty = self.expr(e.value, env, B)
+        if isinstance(e.slice, ast.Slice) and e.slice.lower is None and e.slice.upper is None and e.slice.step is not None \
+                and ast.unparse(e.slice.step) == '-1' and (vty, '[::-1]') in self.spec.methods:
+            tmpl, rty = self.spec.methods[(vty, '[::-1]')]
+            t = self.fresh('rv')
+            if B is None:
+                raise Untranslatable('slice inside a pure context')
+            B.append((t, ('pure', tmpl.format(v))))
+            self.fresh_terms.add(t)          # a slice is a new list
+            return t, rty
         if isinstance(e.slice, ast.Slice):
             s = e.slice
+            if s.lower is None and s.upper is None and vty.startswith('List '):
+                if s.step is None:                     # `l[:]`: a (shallow) copy; lists are values in the image
+                    return v, vty
+                if isinstance(s.step, ast.UnaryOp) and isinstance(s.step.op, ast.USub) and \
+                        isinstance(s.step.operand, ast.Constant) and s.step.operand.value == 1:
+                    return f'({v}.reverse)', vty       # `l[::-1]`
             if s.step is not None or vty != 'List Int' or (s.lower is None) == (s.upper is None):
                 raise Untranslatable('slice form')
             if s.lower is not None:
@@ -388,6 +552,12 @@ class FunTr:
             if ity != 'Int':
                 raise Untranslatable('slice bound')
             return f'(Py.{fn} {v} {i})', 'List Int'
+        if vty.startswith('Dict '):                    # `d[k]`: KeyError when absent
+            kv = split_prod(elem_ty(self.resolve(vty)))
+            k_, kty_ = self.expr(e.slice, env, B)
+            if len(kv) != 2 or lean_ty(kty_) != lean_ty(kv[0]):
+                raise Untranslatable(f'key of {vty}: {kty_}')
+            return self.bind(B, f'PyL.dictGet {self.eq_fun(kv[0])} {v} {k_}', 'Res ' + paren(kv[1]))
         if vty in self.spec.index_methods:
             tmpl, kty, rty = self.spec.index_methods[vty]
             k_, kty_ = self.expr(e.slice, env, B)
@@ -407,6 +577,12 @@ class FunTr:
 
     def e_Attribute(self, e, env, B):
         v, vty = self.expr(e.value, env, B)
+        if vty.startswith('Option ') and not isinstance(e.value, ast.Name):
+            # an attribute of a value that may be None: `None.attr` raises AttributeError
+            inner = vty[7:].strip()
+            inner = inner[1:-1] if inner.startswith('(') and inner.endswith(')') else inner
+            if (inner, e.attr) in self.spec.attrs or (inner, e.attr) in self.spec.funs_by_attr:
+                v, vty = self.bind(B, f'(match {v} with | some o => pure o | none => throw Err.attr)', f'Res {paren(inner)}')
         key = (vty, e.attr)
         if (vty, e.attr) in self.spec.funs_by_attr:        # a translated property wins over a binding to the model
             return self.call_fun(self.spec.funs_by_attr[(vty, e.attr)], [(v, vty)], B)
@@ -415,18 +591,82 @@ class FunTr:
             return self.bind(B, tmpl.format(v), rty)
         raise Untranslatable(f'attribute {vty}.{e.attr} at line {e.lineno}')
 
+    def check_owned(self, pyname, call, arg_asts, env):
+        """a callee that stores into / mutates a parameter (`owned` in its spec entry) may only be given an object no other
+        name refers to (a fresh local, named once in the call), in one of two forms after which the caller cannot observe the
+        mutation:
+          (a) `x = f(x, …)`, the call being the whole right-hand side: a functional update, the name is rebound to the result
+              (SrcOrn: `new_note = accent(new_note, …)` after `new_note = note.copy()`);
+          (b) `return f(…, x, …)`, the call being the function's final expression (SrcExt: `return self._chord_notes_calc(…)`)."""
+        f = self.spec.funs[pyname]
+        names = [p[0] for p in f['params']]
+        for p in f.get('owned', ()):
+            a = arg_asts[names.index(p)] if names.index(p) < len(arg_asts) else None
+            ok = isinstance(a, ast.Name) and ident(a.id) in self.fresh_vars(env) and \
+                sum(1 for nd in ast.walk(call) if isinstance(nd, ast.Name) and nd.id == a.id) == 1
+            if not (ok and ((self.cur_target == a.id and self.cur_value is call) or self.ret_expr is call)):
+                raise Untranslatable(f'{pyname} stores into its argument `{p}`: at line {call.lineno} it must be a fresh local '
+                                     f'passed once, in `x = {pyname}(x, …)` or in `return {pyname}(…)`')
+
     def call_fun(self, pyname, args, B):
         f = self.spec.funs[pyname]
+        if f.get('fuel') and not self.has_fuel:
+            raise Untranslatable(f'{pyname} recurses; the caller needs the entry key `fuel`')
         if len(args) != len(f['params']):
             raise Untranslatable(f'arity of {pyname}')
         args = [(self.coerce(t, ty, pty, f'argument {pn} of {pyname}'), pty) for (t, ty), (pn, pty) in zip(args, f['params'])]
-        term = f'{f["lean"]} ' + ' '.join(a[0] if a[0].startswith('(') or a[0].isidentifier() else f'({a[0]})' for a in args)
+        term = f'{f["lean"]} ' + ('rec_fuel ' if f.get('fuel') else '') + ' '.join(a[0] if a[0].startswith('(') or a[0].isidentifier() else f'({a[0]})' for a in args)
         if f['pure']:
             return f'({term})', f['ret']
         return self.bind(B, term, 'Res ' + f['ret'])
 
+    def sorted_by_key(self, e, env, B):
+        """`sorted(l, key=lambda x: k)` with `k` an int or an Optional[int]: the keys are computed first, in list order (an
+        exception aborts); two or more elements with a `None` key make the comparison raise TypeError; stable otherwise"""
+        lam = e.keywords[0].value
+        if not isinstance(lam, ast.Lambda) or len(lam.args.args) != 1 or lam.args.defaults or lam.args.vararg \
+                or lam.args.kwarg or lam.args.kwonlyargs or lam.args.posonlyargs:
+            raise Untranslatable('sort key that is not a one-argument lambda')
+        l, lty = self.expr(e.args[0], env, B)
+        if not lty.startswith('List '):
+            raise Untranslatable(f'sorted({lty}, key=…)')
+        et = elem_ty(lty)
+        x = lam.args.args[0].arg
+        Bk = []
+        k, kty = self.expr(lam.body, {**env, x: et}, Bk)
+        if any(isinstance(m, tuple) for _, m in Bk):
+            raise Untranslatable('copy inside a sort key')
+        if kty == 'Int':
+            k = f'(some {k})'
+        elif kty != 'Option Int':
+            raise Untranslatable(f'sort key of type {kty}')
+        body = ' '.join(f'let {n} ← {m};' for n, m in Bk) + f' pure {k}'
+        return self.bind(B, f'PyL.sortedByOptKey (fun ({ident(x)} : {lean_ty(et)}) => do {body}) {l}', 'Res ' + paren(lty))
+
     def e_Call(self, e, env, B):
         fn = e.func
+        if isinstance(fn, ast.Name) and fn.id in env and any(k_[0] == env[fn.id] for k_ in self.spec.callables):
+            # `obj(args, **d, kw=…)` on an object whose `__call__` the spec binds
+            v, vty = self.expr(fn, env, B)
+            args = [self.expr(a, env, B) for a in e.args]
+            stars = [kw for kw in e.keywords if kw.arg is None]
+            if len(stars) > 1:
+                raise Untranslatable('several ** arguments')
+            sig = tuple(a[1] for a in args)
+            if stars:
+                d = self.expr(stars[0].value, env, B)
+                args.append(d)
+                sig += ('**' + d[1],)
+            if (vty, sig) not in self.spec.callables:
+                raise Untranslatable(f'call of a {vty} on {sig} at line {e.lineno}')
+            tmpl, rty, dropped = self.spec.callables[(vty, sig)]
+            for kw in e.keywords:
+                if kw.arg is not None and kw.arg not in dropped:
+                    raise Untranslatable(f'call of a {vty}: keyword {kw.arg}')
+            return self.bind(B, tmpl.format(v, *[a[0] for a in args]), rty)
+        if isinstance(fn, ast.Name) and fn.id == 'sorted' and 'sorted' not in env and len(e.args) == 1 \
+                and len(e.keywords) == 1 and e.keywords[0].arg == 'key':
+            return self.sorted_by_key(e, env, B)
         if e.keywords and not (isinstance(fn, ast.Name) and (fn.id in self.spec.ctors or fn.id in self.spec.funs)) \
                 and not isinstance(fn, ast.Attribute):
             raise Untranslatable('keyword arguments')
@@ -445,6 +685,8 @@ class FunTr:
                         raise Untranslatable('set of non-int-list')
                     return f'(sortedDedup {t})', 'List Int'
                 t, ty = self.expr(a, env, B)
+                if lean_ty(ty) == 'List String':
+                    return f'(sortStrs {t})', 'List String'      # code-point order, as Python compares str
                 if ty not in LIST_TYPES:
                     raise Untranslatable(f'sorted({ty})')
                 return f'(sortInts {t})', 'List Int'
@@ -457,7 +699,24 @@ class FunTr:
                 t, ty = self.expr(e.args[0], env, B)
                 if not is_list(ty):
                     raise Untranslatable(f'len({ty})')
+                if self.fold_literals and display_len(t) is not None:
+                    return ilit(display_len(t)), 'Int'
                 return f'(Py.len {t})', 'Int'
+            if n == 'sum' and len(e.args) == 2 and isinstance(e.args[1], ast.Constant) and e.args[1].value is None:
+                # `sum(xs, None)`: `None + x0` (the reflected `x0.__radd__(None)`), then `acc + x` from the left;
+                # the result is None for an empty list
+                t, ty = self.expr(e.args[0], env, B)
+                if not is_list(ty) or ty == 'Np':
+                    raise Untranslatable(f'sum({ty}, None)')
+                ety = elem_ty(ty)
+                x0, x, acc, xs = self.fresh('x'), self.fresh('x'), self.fresh('acc'), self.fresh('xs')
+                B0, B1 = [], []
+                r0, aty = self.binop_u('()', 'None', x0, ety, 'Add', e, B0)
+                r1, aty1 = self.binop_u(acc, aty, x, ety, 'Add', e, B1)
+                if B0 or B1 or lean_ty(aty1).replace('Melody', 'List Note') != lean_ty(aty).replace('Melody', 'List Note'):
+                    raise Untranslatable(f'sum({ty}, None): accumulator {aty} / {aty1} at line {e.lineno}')
+                return (f'(match {t} with | [] => none | {x0} :: {xs} => some ({xs}.foldl '
+                        f'(fun ({acc} : {lean_ty(aty)}) ({x} : {lean_ty(ety)}) => {r1}) {r0}))'), f'Option {aty}'
             if n in ('sum', 'max') and len(e.args) == 1:
                 t, ty = self.expr(e.args[0], env, B)
                 if not is_list(ty) or elem_ty(ty) not in ('Rat', 'Int'):
@@ -490,6 +749,10 @@ class FunTr:
                     # decided at run time; admitted only as the test of an `if` (see `block`), where it becomes a `match`
                     raise Untranslatable(f'isinstance on the sum type {ty} outside the test of an if, at line {e.lineno}')
                 self.assumed.append(f'line {e.lineno}: isinstance({ast.unparse(e.args[0])}, {cls}) with declared type {ty}')
+                if ty in UNIONS:
+                    raise Untranslatable(f'isinstance on a value of type {ty} at line {e.lineno}')
+                if cls in PYCLASSES:
+                    return ('true' if ty in PYCLASSES[cls] else 'false'), 'Bool'
                 return ('true' if ty == cls else 'false'), 'Bool'
             if n in self.spec.fraction_ctors and len(e.args) in (1, 2) and not e.keywords:
                 # Fraction(a) / Fraction(a, b) on ints and fractions: a / b, ZeroDivisionError on b = 0
@@ -527,13 +790,7 @@ class FunTr:
             if n in self.spec.ctors:
                 return self.ctor(n, e, env, B)
             if n in self.spec.funs:
-                owned = self.spec.funs[n].get('owned', ())
-                for (pn, _), a in zip(self.spec.funs[n]['params'], e.args):
-                    # the callee stores into this argument: only `x = f(x, …)` on a fresh local is a functional update
-                    if pn in owned and not (isinstance(a, ast.Name) and ident(a.id) in self.fresh_vars(env)
-                                            and self.cur_target == a.id):
-                        raise Untranslatable(f'{n} stores into its argument `{pn}`; the call at line {e.lineno} is not of '
-                                             f'the form `x = {n}(x, …)` on a fresh local')
+                self.check_owned(n, e, list(e.args), env)
                 args = [self.expr(a, env, B) for a in e.args]
                 if e.keywords:
                     pn = [p[0] for p in self.spec.funs[n]['params']][len(args):]
@@ -542,6 +799,13 @@ class FunTr:
                         raise Untranslatable(f'keyword arguments of {n}')
                     args += [self.expr(kw[p], env, B) for p in pn]
                 return self.call_fun(n, args, B)
+            if n not in env and not e.keywords and any(k[0] == n for k in self.spec.calls):
+                args = [self.expr(a, env, B) for a in e.args]
+                key = (n, tuple(a[1] for a in args))
+                if key not in self.spec.calls:
+                    raise Untranslatable(f'call of {n} on {key[1]} at line {e.lineno}')
+                tmpl, rty = self.spec.calls[key]
+                return self.bind(B, tmpl.format(*[a[0] for a in args]), rty)
             raise Untranslatable(f'call of {n}')
         if isinstance(fn, ast.Attribute):
             if isinstance(fn.value, ast.Name) and fn.value.id == 'np' and fn.attr in ('asarray', 'array') and len(e.args) == 1:
@@ -555,13 +819,24 @@ class FunTr:
                     raise Untranslatable('copy inside a pure context')
                 t = self.fresh('cp')
                 self.fresh_terms.add(t)
-                B.append((t, ('pure', self.spec.copy_template.get(vty, '{0}').format(v))))
+                B.append((t, ('pure', (self.copy_template.get(vty) or self.spec.copy_template.get(vty, '{0}')).format(v))))
                 return t, vty
             if fn.attr == 'index' and vty in LIST_TYPES and len(e.args) == 1:
                 x, xty = self.expr(e.args[0], env, B)
                 if xty != 'Int':
                     raise Untranslatable('list.index of non-int')
                 return self.bind(B, f'Py.index {v} {x}', 'Res Int')
+            if fn.attr == 'index' and vty.startswith('List ') and vty not in LIST_TYPES and len(e.args) == 1 \
+                    and not e.keywords and (vty, 'index') not in self.spec.methods:
+                x, xty = self.expr(e.args[0], env, B)
+                if lean_ty(xty) != lean_ty(elem_ty(vty)):
+                    raise Untranslatable(f'{vty}.index({xty})')
+                return self.bind(B, f'PyL.indexBy {self.eq_fun(xty)} {v} {x}', 'Res Int')
+            if fn.attr == 'keys' and vty.startswith('Dict ') and not e.args and not e.keywords:
+                kv = split_prod(elem_ty(self.resolve(vty)))
+                if len(kv) != 2:
+                    raise Untranslatable(f'keys of {vty}')
+                return f'({v}.map (fun p => p.1))', f'List {paren(kv[0])}'
             args = [self.expr(a, env, B) for a in e.args]
             key = (vty, fn.attr)
             if key in self.spec.funs_by_attr and e.keywords:
@@ -577,6 +852,7 @@ class FunTr:
                 tmpl, rty = self.spec.methods[key]
                 return self.bind(B, tmpl.format(v, *[a[0] for a in args]), rty)
             if key in self.spec.funs_by_attr:
+                self.check_owned(self.spec.funs_by_attr[key], e, [fn.value] + list(e.args), env)
                 return self.call_fun(self.spec.funs_by_attr[key], [(v, vty)] + args, B)
             raise Untranslatable(f'method {vty}.{fn.attr} at line {e.lineno}')
         raise Untranslatable('call form')
@@ -627,7 +903,19 @@ class FunTr:
             env2[g.target.id] = elem_ty(ity)
             conds = []
             for c in g.ifs:
-                ct, cty = self.expr(c, env2, None)
+                try:
+                    ct, cty = self.expr(c, env2, None)
+                except Untranslatable:
+                    if len(gens) != 1 or len(g.ifs) != 1 or B is None:
+                        raise
+                    Bc = []          # the filter can raise: evaluated per element in the monad, in list order
+                    ct, cty = self.expr(c, env2, Bc)
+                    if cty != 'Bool' or any(isinstance(m, tuple) for _, m in Bc):
+                        raise
+                    xv = ident(g.target.id) + ' : ' + lean_ty(elem_ty(ity))
+                    body = ' '.join(f'let {n} ← {m};' for n, m in Bc) + f' pure {ct}'
+                    it, _ = self.bind(B, f'{it}.filterM (fun ({xv}) => do {body})', f'Res ({lean_ty(ity)})')
+                    continue
                 if cty != 'Bool':
                     raise Untranslatable('comprehension filter')
                 conds.append(ct)
@@ -636,7 +924,14 @@ class FunTr:
         elt, ety = self.expr(e.elt, env2, Be)
         ety = lean_ty(ety)
         if Be and all(isinstance(m, tuple) for _, m in Be):
-            raise Untranslatable('copy inside a comprehension')
+            if len(iters) != 1 or not self.copy_template:
+                raise Untranslatable('copy inside a comprehension')
+            x, it, conds, xn = iters[0]       # `[f(x.copy()) for x in xs]`: the copies are pure on the model's values
+            src = it
+            for c in conds:
+                src = f'({src}.filter (fun ({x}) => {c}))'
+            body = ' '.join(f'let {n} := {m[1]};' for n, m in Be) + f' {elt}'
+            return f'({src}.map (fun ({x}) => {body}))', f'List {paren(ety)}'
         if Be:
             if len(iters) != 1:
                 raise Untranslatable('raising element in a nested comprehension')
@@ -657,6 +952,39 @@ class FunTr:
                 term = f'({src}.flatMap (fun ({x}) => {term}))'
         return term, f'List {paren(ety)}'
 
+    def e_DictComp(self, e, env, B):
+        """`{k: f(v) for k, v in d.items()}` over an association list with unique keys (the items of a dict), the key kept:
+        an association list in the same order"""
+        if len(e.generators) != 1:
+            raise Untranslatable('dict comprehension with several generators')
+        g = e.generators[0]
+        if g.is_async or not (isinstance(g.target, ast.Tuple) and len(g.target.elts) == 2
+                              and all(isinstance(x, ast.Name) for x in g.target.elts)):
+            raise Untranslatable('dict comprehension target')
+        kn, vn = g.target.elts[0].id, g.target.elts[1].id
+        if not (isinstance(e.key, ast.Name) and e.key.id == kn):
+            raise Untranslatable('dict comprehension that changes the keys')
+        it, ity = self.expr(g.iter, env, B)
+        comps = split_prod(elem_ty(ity)) if is_list(ity) else []
+        if len(comps) != 2:
+            raise Untranslatable(f'dict comprehension over {ity}')
+        env2 = {**env, kn: comps[0], vn: comps[1]}
+        kv = self.fresh('kv')
+        for c in g.ifs:
+            ct, cty = self.expr(c, env2, None)
+            if ct != 'true':
+                raise Untranslatable('dict comprehension filter')
+        Be = []
+        val, vty = self.expr(e.value, env2, Be)
+        if any(isinstance(m, tuple) for _, m in Be):
+            raise Untranslatable('copy inside a dict comprehension')
+        head = f'let {ident(kn)} : {lean_ty(comps[0])} := {kv}.1; let {ident(vn)} : {lean_ty(comps[1])} := {kv}.2;'
+        rty = f'List ({lean_ty(comps[0])} × {lean_ty(vty)})'
+        if Be:
+            body = head + ' ' + ' '.join(f'let {n} ← {m};' for n, m in Be) + f' pure ({ident(kn)}, {val})'
+            return self.bind(B, f'({it}).mapM (fun ({kv} : {lean_ty(comps[0])} × {lean_ty(comps[1])}) => do {body})', f'Res ({rty})')
+        return f'(({it}).map (fun ({kv} : {lean_ty(comps[0])} × {lean_ty(comps[1])}) => {head} ({ident(kn)}, {val})))', rty
+
     def e_SetComp(self, e, env, B):
         l = ast.ListComp(elt=e.elt, generators=e.generators)
         ast.copy_location(l, e)
@@ -668,6 +996,8 @@ class FunTr:
         """the value `t : ty` where a `want` is expected (only conversions Python performs implicitly or that are
         representation changes of the model: None/T into Optional[T], int into Fraction, tuples componentwise)"""
         ty, want = self.resolve(ty), self.resolve(want)
+        if 'Float' in (ty, want) and ty != want:
+            raise Untranslatable(f'{what}: a float where {want} is expected')      # floats never convert silently
         if lean_ty(ty).replace('Melody', 'List Note') == lean_ty(want).replace('Melody', 'List Note'):
             return t
         if is_list(ty) and is_list(want) and ('⟦' in ty or '⟦' in want):
@@ -681,6 +1011,10 @@ class FunTr:
             return f'(some {self.coerce(t, ty, inner, what)})'
         if want == 'Rat' and ty == 'Int':
             return f'(({t} : Int) : Rat)'
+        if want in UNIONS:
+            for mt, ctor in UNIONS[want][1]:
+                if lean_ty(mt).replace('Melody', 'List Note') == lean_ty(ty).replace('Melody', 'List Note'):
+                    return f'({UNIONS[want][0]}.{ctor} {t})'
         if want == 'Bool' and ty == 'Int':
             return f'(decide ({t} ≠ (0 : Int)))'
         if (ty, want) in self.spec.coercions:
@@ -709,10 +1043,48 @@ class FunTr:
                 return True
             if isinstance(f, ast.Attribute) and f.attr == 'copy':
                 return True
+        if isinstance(v, ast.Dict) and not v.keys:
+            return True
+        if isinstance(v, ast.Subscript) and isinstance(v.slice, ast.Slice) and v.slice.lower is None and v.slice.upper is None \
+                and v.slice.step is None:
+            return True          # `l[:]` is a new list
         return False
 
     def in_loop_assigned(self, name):
         return False
+
+    def store_target(self, tgt, env):
+        """`m.notes[i]` with `m` a local whose attribute `notes` is the list itself -> the local's name (SrcDurOps).
+        A store through a plain local name, `xs[i] = v` / `d[k] = v`, is translated by the SrcExt form in `block`."""
+        v = tgt.value
+        if isinstance(tgt.slice, ast.Slice):
+            return None
+        if isinstance(v, ast.Attribute) and isinstance(v.value, ast.Name) and v.value.id in env \
+                and self.spec.attrs.get((env[v.value.id], v.attr), (None,))[0] == '{0}' and is_list(env[v.value.id]):
+            return v.value.id
+        return None
+
+    def local_function(self, s):
+        """a `def` inside the function (no closure: only its own parameters and spec globals), possibly recursive.
+        Emitted as a Lean definition by structural recursion on `rec_fuel`; running out of fuel is Python's RecursionError."""
+        nd = self.nested[s.name]
+        if [a.arg for a in s.args.args] != [p[0] for p in nd['params']] or s.args.vararg or s.args.kwarg or s.args.defaults:
+            raise Untranslatable(f'local function {s.name}: parameters')
+        if any(p[0] == 'rec_fuel' for p in nd['params']):
+            raise Untranslatable('a parameter named rec_fuel')
+        sub = FunTr(self.spec, nd['lean'], nd['params'], nd['ret'])
+        sub.copy_template, sub.fold_literals, sub.has_fuel = self.copy_template, self.fold_literals, True
+        sub.typed_ops, sub.join_ifs = self.typed_ops, self.join_ifs
+        self.has_fuel = True
+        self.spec.funs[s.name] = dict(lean=nd['lean'], params=nd['params'], ret=nd['ret'], pure=False, fuel=True, local=True)
+        tree = sub.block(list(s.body), {p_: t_ for p_, t_ in nd['params']})
+        sig = ' '.join(f'({ident(p_)} : {lean_ty(t_)})' for p_, t_ in nd['params'])
+        rt = lean_ty(nd['ret'])
+        lines = [f'/-- local function `{s.name}` of `{self.name}`; `rec_fuel` bounds the recursion depth (RecursionError) -/',
+                 f'def {nd["lean"]} (rec_fuel : Nat) {sig} : Res {paren(rt)} :=',
+                 '  match rec_fuel with', '  | 0 => throw Err.other', '  | rec_fuel + 1 => do'] + render(tree, 4, True)
+        self.nested_defs.append(('\n'.join(lines), sub))
+        self.assumed += sub.assumed
 
     @staticmethod
     def drop_const(env, names):
@@ -744,16 +1116,19 @@ class FunTr:
                         for x in ([t] if not isinstance(t, ast.Tuple) else t.elts):
                             if isinstance(x, ast.Name):
                                 add(x.id)
-                            elif isinstance(x, ast.Attribute) and isinstance(x.value, ast.Name):
+                            elif isinstance(x, (ast.Attribute, ast.Subscript)) and isinstance(x.value, ast.Name):
                                 add(x.value.id)
+                            elif isinstance(x, ast.Subscript) and isinstance(x.value, ast.Attribute) \
+                                    and isinstance(x.value.value, ast.Name):
+                                add(x.value.value.id)          # `m.notes[i] = v` changes `m`
                 elif isinstance(node, ast.AugAssign):
                     x = node.target
                     if isinstance(x, ast.Name):
                         add(x.id)
                     elif isinstance(x, ast.Attribute) and isinstance(x.value, ast.Name):
                         add(x.value.id)
-                elif isinstance(node, ast.Call) and isinstance(node.func, ast.Attribute) and node.func.attr == 'append' \
-                        and isinstance(node.func.value, ast.Name):
+                elif isinstance(node, ast.Call) and isinstance(node.func, ast.Attribute) \
+                        and node.func.attr in ('append', 'insert', 'pop') and isinstance(node.func.value, ast.Name):
                     add(node.func.value.id)
         return out
 
@@ -859,14 +1234,37 @@ class FunTr:
             if s.msg is not None:
                 self.assumed.append(f'line {s.lineno}: building the message of the failing assertion does not raise')
             return self.wrap(B, ('if', c, self.block(rest, env, k), ('raise', 'assertion')))
+        if isinstance(s, ast.FunctionDef) and s.name in self.nested and not self.in_loop:
+            self.local_function(s)
+            return self.block(rest, env, k)
+        if isinstance(s, ast.Assign) and len(s.targets) == 1 and isinstance(s.targets[0], ast.Subscript) \
+                and self.store_target(s.targets[0], env) is not None:
+            # `m.notes[i] = v` on a list no other name refers to: the value first, then the index, then the store (IndexError)
+            x = self.store_target(s.targets[0], env)
+            if ident(x) not in self.fresh_vars(env):
+                raise Untranslatable(f'item store through `{x}`, which may alias an operand, at line {s.lineno}')
+            B = []
+            t, ty = self.expr(s.value, env, B)
+            i, ity = self.expr(s.targets[0].slice, env, B)
+            if ity != 'Int':
+                raise Untranslatable(f'item store with index {ity} at line {s.lineno}')
+            t = self.coerce(t, ty, elem_ty(env[x]), f'item store into {env[x]}')
+            return self.wrap(B, ('bind', ident(x), f'Py.setItem {ident(x)} {i} {paren(t)}', self.block(rest, env, k)))
         if isinstance(s, ast.Assign) and len(s.targets) == 1 and isinstance(s.targets[0], ast.Name):
             B = []
-            self.cur_target = s.targets[0].id
+            self.cur_target, self.cur_value = s.targets[0].id, s.value
             try:
                 t, ty = self.expr(s.value, env, B)
             finally:
-                self.cur_target = None
+                self.cur_target = self.cur_value = None
             name = s.targets[0].id
+            if ty in UNIONS:
+                # the class of the value is known at run time only: the rest of the block is typed once per class
+                alts = []
+                fr = frozenset(set(self.fresh_vars(env)) - {ident(name)})     # may be one of the operands
+                for mt, ctor in UNIONS[ty][1]:
+                    alts.append((ctor, self.block(rest, {**self.drop_const(env, [name]), name: mt, '__fresh__': fr}, k)))
+                return self.wrap(B, ('matchunion', t, UNIONS[ty][0], ident(name), alts))
             if ty == 'None':
                 t = '()'
             fr = set(self.fresh_vars(env)) - {ident(name)}
@@ -896,6 +1294,49 @@ class FunTr:
             for idx in reversed(range(len(names))):
                 node = ('let', ident(names[idx]), lean_ty(comps[idx]), f'{pr}{tuple_proj(len(names), idx)}', node)
             return self.wrap(B, ('let', pr, None, t, node))
+        if isinstance(s, ast.Assign) and len(s.targets) == 1 and isinstance(s.targets[0], ast.Subscript) \
+                and isinstance(s.targets[0].value, ast.Name) and s.targets[0].value.id in env \
+                and not isinstance(s.targets[0].slice, ast.Slice):
+            # `x[i] = v` on a list (IndexError out of range) / `d[k] = v` on a dict; Python evaluates v, then x, then the index
+            x = s.targets[0].value.id
+            xty = self.resolve(env[x])
+            if ident(x) not in self.fresh_vars(env):
+                raise Untranslatable(f'store into `{x}`, which may alias an operand, at line {s.lineno}')
+            B = []
+            t, ty = self.expr(s.value, env, B)
+            i, ity = self.expr(s.targets[0].slice, env, B)
+            if xty.startswith('Dict '):
+                want = f'Dict {paren(lean_ty(ity) + " × " + lean_ty(ty))}'
+                nty, _ = self.unify_list(xty, want)
+                kv = split_prod(elem_ty(nty))
+                return self.wrap(B, ('let', ident(x), lean_ty(nty), f'(PyL.dictSet {self.eq_fun(kv[0])} {ident(x)} {i} {t})',
+                                     self.block(rest, {**env, x: nty}, k)))
+            if xty.startswith('List ') and ity == 'Int':
+                t = self.coerce(t, ty, elem_ty(xty), f'store into {x}')
+                r = self.fresh()
+                B.append((r, f'PyL.setItem {ident(x)} {i} {t}'))
+                return self.wrap(B, ('let', ident(x), lean_ty(xty), r, self.block(rest, env, k)))
+            raise Untranslatable(f'store {xty}[{ity}] at line {s.lineno}')
+        if isinstance(s, ast.Expr) and isinstance(s.value, ast.Call) and isinstance(s.value.func, ast.Attribute) \
+                and s.value.func.attr in ('insert', 'pop') and isinstance(s.value.func.value, ast.Name) \
+                and s.value.func.value.id in env and self.resolve(env[s.value.func.value.id]).startswith('List ') \
+                and not s.value.keywords and len(s.value.args) == (2 if s.value.func.attr == 'insert' else 1):
+            # `x.insert(i, v)` (the index is clamped) / `x.pop(i)` as a statement (IndexError out of range)
+            x = s.value.func.value.id
+            xty = self.resolve(env[x])
+            if ident(x) not in self.fresh_vars(env):
+                raise Untranslatable(f'{s.value.func.attr} on `{x}`, which may alias an operand, at line {s.lineno}')
+            B = []
+            i, ity = self.expr(s.value.args[0], env, B)
+            if ity != 'Int':
+                raise Untranslatable(f'{s.value.func.attr} at an index of type {ity}')
+            if s.value.func.attr == 'insert':
+                t, ty = self.expr(s.value.args[1], env, B)
+                t = self.coerce(t, ty, elem_ty(xty), f'insert into {x}')
+                return self.wrap(B, ('let', ident(x), lean_ty(xty), f'(PyL.insert {ident(x)} {i} {t})', self.block(rest, env, k)))
+            r = self.fresh()
+            B.append((r, f'PyL.popAt {ident(x)} {i}'))
+            return self.wrap(B, ('let', ident(x), lean_ty(xty), r, self.block(rest, env, k)))
         if isinstance(s, (ast.Assign, ast.AugAssign)):
             tgt = s.targets[0] if isinstance(s, ast.Assign) and len(s.targets) == 1 else getattr(s, 'target', None)
             if isinstance(tgt, ast.Attribute) and isinstance(tgt.value, ast.Name) and tgt.value.id in env:
@@ -996,6 +1437,9 @@ class FunTr:
             if not is_list(ity):
                 raise Untranslatable(f'loop over {ity} at line {s.lineno}')
             svars = [n for n in self.assigned_names(s.body) if n in env and n != s.target.id]
+            for nd in ast.walk(s.iter):
+                if isinstance(nd, ast.Name) and nd.id in svars and not env[nd.id] in ('Int', 'Rat', 'Bool'):
+                    raise Untranslatable(f'the loop at line {s.lineno} changes `{nd.id}`, which it iterates over')
             has_break = any(isinstance(x, ast.Break) for st_ in s.body for x in ast.walk(st_))
             env0 = self.drop_const(env, svars + [s.target.id])
             pre = []          # promotions int -> Fraction of loop-carried variables (Python does them on the fly)
@@ -1055,7 +1499,9 @@ class FunTr:
             if s.value is None:
                 return ('ret', self.coerce_ret('none', 'None'))
             B = []
+            self.ret_expr = s.value
             t, ty = self.expr(s.value, env, B)
+            self.ret_expr = None
             return self.wrap(B, ('ret', self.coerce_ret(t, ty)))
         if isinstance(s, ast.Raise):
             cls = 'Exception'
@@ -1078,6 +1524,8 @@ def is_pure(node):
         return is_pure(node[3]) and is_pure(node[4])
     if k == 'join':
         return is_pure(node[3]) and is_pure(node[4])
+    if k == 'matchunion':
+        return all(is_pure(sub) for _, sub in node[4])
     if k == 'for':
         return is_pure(node[6]) and is_pure(node[7])
     return True
@@ -1096,7 +1544,7 @@ def render(node, ind, monadic):
     if k == 'matchopt':
         return [f'{sp}match {node[1]} with', f'{sp}| some {node[1]} =>'] + render(node[2], ind + 4, monadic) + \
                [f'{sp}| none =>'] + render(node[3], ind + 4, monadic)
-    if k == 'matchsum':
+    if k == 'matchsum':       # SrcOrn: `if isinstance(x, C)` on a local of a declared sum type (`spec.sums`)
         return [f'{sp}match {node[1]} with', f'{sp}| {node[2]} =>'] + render(node[3], ind + 4, monadic) + \
                [f'{sp}| _ =>'] + render(node[4], ind + 4, monadic)
     if k == 'join':
@@ -1110,6 +1558,11 @@ def render(node, ind, monadic):
         if n != 1:
             out += [f'{sp}let {v} : {lean_ty(t)} := {st}{tuple_proj(n, i)}' for i, (v, t) in enumerate(vs)]
         return out + render(rest, ind, monadic)
+    if k == 'matchunion':     # SrcDurOps: a value of a `UNIONS` type is assigned; the rest of the block once per class
+        out = [f'{sp}match {node[1]} with']
+        for ctor, sub in node[4]:
+            out += [f'{sp}| {node[2]}.{ctor} {node[3]} =>'] + render(sub, ind + 4, monadic)
+        return out
     if k == 'for':
         _, st, it, xty, x, svars, body, rest = node[:8]
         has_break = len(node) > 8 and node[8]
@@ -1176,9 +1629,35 @@ def translate_function(spec, entry):
             raise Untranslatable(f'{entry["py"]}: parameters {argnames}, spec {[p[0] for p in params]}')
     tr = FunTr(spec, entry['lean'], params, entry['ret'])
     tr.join_ifs = bool(entry.get('join_ifs'))
+    tr.copy_template = dict(entry.get('copy', {}))
+    tr.fold_literals = bool(entry.get('fold'))
+    tr.typed_ops = bool(entry.get('typed_ops'))
+    tr.nested = dict(entry.get('nested', {}))
+    tr.has_fuel = bool(entry.get('fuel'))
+    if tr.has_fuel or tr.nested:
+        if any(p[0] == 'rec_fuel' for p in params):
+            raise Untranslatable('a parameter named rec_fuel')
+    try:
+        return _translate_function(spec, entry, tr, fd, params)
+    finally:
+        for k_ in [k_ for k_, v_ in spec.funs.items() if v_.get('local')]:
+            del spec.funs[k_]
+
+
+def _translate_function(spec, entry, tr, fd, params):
     env = {p: t for p, t in params}
-    if entry.get('owned'):      # parameters the function stores into: callers pass a fresh object (checked at translated call sites)
-        env['__fresh__'] = frozenset(ident(p) for p in entry['owned'])
+    # entry key `owned`: parameters the function stores into (SrcOrn: `new_note.amp = …`) or mutates in place (SrcExt: a list it
+    # appends to).  Inside, they count as fresh; translated call sites are checked (FunTr.check_owned).  For list parameters the
+    # assumption about the other callers is printed in the generated file (SrcExt); SrcOrn's `accent` states it in its group file.
+    owned = list(entry.get('owned', []))
+    if owned:
+        if any(p not in env for p in owned):
+            raise Untranslatable(f'{entry["py"]}: owned parameters {owned}')
+        env['__fresh__'] = frozenset(ident(p) for p in owned)
+        lists = [p for p in owned if env[p].startswith('List ')]
+        if lists:
+            tr.assumed.append(f'the caller does not use the list `{", ".join(lists)}` after the call (the function mutates it in '
+                              f'place): translated call sites are checked, other callers are assumed to pass a list of their own')
     for k, (term, ty) in entry.get('fixed', {}).items():
         env[k] = ty
         tr.consts[k] = term
@@ -1187,6 +1666,8 @@ def translate_function(spec, entry):
         tree = ('let', ident(k), lean_ty(ty), term, tree)
     pure = is_pure(tree)
     sig = ' '.join(f'({ident(p)} : {lean_ty(t)})' for p, t in params)
+    if tr.has_fuel:
+        sig = '(rec_fuel : Nat) ' + sig
     rt = lean_ty(entry['ret'])
     if ' ' in rt:
         rt_m = f'({rt})'
@@ -1194,6 +1675,9 @@ def translate_function(spec, entry):
         rt_m = rt
     head = f'def {entry["lean"]} {sig} : ' + (rt if pure else f'Res {rt_m}') + ' :=' + ('' if pure else ' do')
     lines = [f'/-- `{entry["py"]}` -/', head] + render(tree, 2, not pure)
+    for ntext, sub in tr.nested_defs:
+        tr.tyvars.update(sub.tyvars)
+        lines = ntext.split('\n') + [''] + lines
     text = '\n'.join(lines)
     for m, v in tr.tyvars.items():
         if m in text:
@@ -1202,8 +1686,14 @@ def translate_function(spec, entry):
             text = text.replace(m, paren(lean_ty(v)))
     lines = text.split('\n')
     info = {'lean': entry['lean'], 'params': params, 'ret': entry['ret'], 'pure': pure}
-    if entry.get('owned'):
-        info['owned'] = tuple(entry['owned'])
+    if owned:
+        info['owned'] = tuple(owned)
+    if tr.has_fuel:
+        info['fuel'] = True
+    if 'rbinop' in entry:     # a reflected operator method (`__radd__`): self is the right operand
+        spec.binops[tuple(entry['rbinop'])] = ('(' + entry['lean'] + ' {1} {0})', entry['ret'] if pure else 'Res ' + entry['ret'])
+    if 'binop' in entry:      # a typed instance of an operator method: (left type, ast operator, right type)
+        spec.binops[tuple(entry['binop'])] = ('(' + entry['lean'] + ' {0} {1})', entry['ret'] if pure else 'Res ' + entry['ret'])
     spec.funs[entry['name']] = info
     if 'attr' in entry:
         spec.funs_by_attr[tuple(entry['attr'])] = entry['name']
